@@ -307,6 +307,18 @@ func (te *tableEngine) UpdateTablePlayers(joinPlayers []JoinPlayer, leavePlayerI
 	te.lock.Lock()
 	defer te.lock.Unlock()
 
+	// a batch is all-or-nothing: the joining players must fit the table as it will be after the leaves
+	if len(joinPlayers) > 0 && len(leavePlayerIDs) > 0 {
+		for _, playerID := range leavePlayerIDs {
+			if te.table.FindPlayerIdx(playerID) == UnsetValue {
+				return nil, ErrTablePlayerNotFound
+			}
+		}
+		if err := te.validateJoinPlayers(joinPlayers, leavePlayerIDs); err != nil {
+			return nil, err
+		}
+	}
+
 	// remove players
 	if len(leavePlayerIDs) > 0 {
 		if err := te.batchRemovePlayers(leavePlayerIDs); err != nil {
